@@ -36,3 +36,26 @@ func emitHoleTreeCode(repo string) (string, error) {
 		skip:         map[string]string{},
 	})
 }
+
+func init() { emitters["AllLeafCode"] = emitAllLeafCode }
+
+// Gen/AllLeafCode.lean: `matchAllLeaf` — match and matchAll (leaf.go): the capture limit of a match-all leaf, counted in
+// segments of what is left of the path, and the value it binds. `matchHeader`, which the leaf gets from the embedded baseLeaf,
+// is a parameter (`hdrOK`): header constraints have their own theorems (C09).
+func emitAllLeafCode(repo string) (string, error) {
+	return translateType(repo, codeCfg{
+		pkg:          "./internal/route",
+		recvType:     "matchAllLeaf",
+		namespace:    "Flamego.Gen.AllLeafCode",
+		imports:      []string{"Flamego.Code.GoSem", "Flamego.Code.LibRoute"},
+		stringBytes:  true,
+		opaqueFields: true,
+		types:        map[string]string{"net/http.Header": "Lib.Header"},
+		lib: map[string]string{
+			"(*github.com/flamego/flamego/internal/route.baseLeaf).matchHeader": "hdrOK",
+			"strings.Count": "Lib.strings_Count",
+		},
+		prelude: "-- `baseLeaf.matchHeader`: does the request satisfy the header constraints attached to this leaf\nvariable (hdrOK : matchAllLeaf → Lib.Header → Bool)\n",
+		skip:    map[string]string{},
+	})
+}
